@@ -140,3 +140,6 @@ Proof.
   destruct (merge_groups [] (q_groups q)) as [|x s] eqn:E; [destruct Hin|].
   exists (x :: s). split; [exact E2|]. split; [exact Hin|exact E1].
 Qed.
+
+Print Assumptions intern_set_single.
+Print Assumptions ready_sends_queued.
